@@ -271,16 +271,21 @@ def ensembleWrites (step : W → S → W) (detect : W → M) (p : Pot S) (ent : 
 theorem configLoop_spec (step : W → S → W) (detect : W → M) (p : Pot S) (ent : Bool) (ps : List Nat) (first : Int)
     (tl : List Int) (w0 : W) (hp : p.planes = natPlanes ent ps) (hf : natPlanes ent ps = first :: tl)
     (hs : ps.Pairwise (· < ·)) :
-    ∀ (cfgs : List (List S)) (w : W) (c0 : Nat), (∀ cfg ∈ cfgs, ∀ q ∈ ps, q < cfg.length) →
+    ∀ (cfgs : List (List S)) (w : W) (c0 : Nat), (c0 = 0 → w = w0) → (∀ cfg ∈ cfgs, ∀ q ∈ ps, q < cfg.length) →
       (configLoop step detect p first w0 w c0 cfgs).2 = ensembleWrites step detect p ent ps w0 cfgs c0 := by
   intro cfgs
   induction cfgs with
-  | nil => intro w c0 _; simp [configLoop, ensembleWrites]
+  | nil => intro w c0 _ _; simp [configLoop, ensembleWrites]
   | cons cfg rest ih =>
-    intro w c0 hb
+    intro w c0 hw hb
+    have hstart : (if mReset (c0 : Int) then w0 else w) = w0 := by
+      by_cases h0 : c0 = 0
+      · rw [hw h0]; simp
+      · have : mReset (c0 : Int) = true := by simp [mReset]; omega
+        simp [this]
     have hrun := runConfig_spec step detect p ent ps first tl c0 w0 cfg hp hf hs (hb cfg (by simp))
-    simp only [configLoop, hrun]
-    rw [ih (cfg.foldl step w0) (c0 + 1) (fun c hc => hb c (by simp [hc]))]
+    simp only [configLoop, hstart, hrun]
+    rw [ih (cfg.foldl step w0) (c0 + 1) (by omega) (fun c hc => hb c (by simp [hc]))]
     simp only [ensembleWrites, List.zipIdx_cons, List.flatMap_cons]
 
 /-- index lists written by the whole ensemble -/
